@@ -145,6 +145,13 @@ class Engine:
     def fresh(self, name, bits=8, signed=False):
         if name in self.inputs:
             raise EngineError(f"duplicate symbol {name}")
+        if self.run.fixed is not None:
+            # replay mode: every named input is the counter-model's concrete value (plain int)
+            x = int(self.run.fixed.get(name, 0)) & ((1 << bits) - 1)
+            self.inputs[name] = z3.BitVecVal(x, bits)
+            if signed and x >= 1 << (bits - 1):
+                x -= 1 << bits
+            return x
         v = z3.BitVec(name, bits)
         self.inputs[name] = v
         if bits == W:
@@ -157,11 +164,19 @@ class Engine:
         """Mathematical integer symbol (no width)."""
         if name in self.inputs:
             raise EngineError(f"duplicate symbol {name}")
+        if self.run.fixed is not None:
+            x = int(self.run.fixed.get(name, 0))
+            self.inputs[name] = z3.IntVal(x)
+            return x
         v = z3.Int(name)
         self.inputs[name] = v
         return SymInt(v, None, None)
 
     def fresh_bool(self, name):
+        if self.run.fixed is not None:
+            x = bool(self.run.fixed.get(name, False))
+            self.inputs[name] = z3.BoolVal(x)
+            return x
         v = z3.Bool(name)
         self.inputs[name] = v
         return SymBool(v)
@@ -450,6 +465,12 @@ class Run:
         self.results = []
         self.undecided = []
         self.monitor_events = []
+        # replay mode (props/replay.py): SYMX_FIX_INPUTS names a JSON file {input name: value}
+        self.fixed = None
+        p = os.environ.get("SYMX_FIX_INPUTS")
+        if p:
+            import json
+            self.fixed = json.load(open(p))
 
 
 _PROXY_WORDS = ("SymInt", "SymBool", "SymBuf", "ArrBuf", "SymMem", "SymGrid", "_Row", "_PseudoMember", "EnumByValueProxy")
